@@ -14,6 +14,6 @@ open Unifex.Core Unifex.Proto.AsyncPass
     cancelled ⇒ arguments untouched, `cancel_leaves_other_waiting` (no deadlock, everybody
     completes exactly once). -/
 theorem pass_cancel_call_safe_inst : ∀ s, Reach (sys cfgCancelCall) s → (safe cfgCancelCall s && faithful s) = true :=
-  safe_of_checkC _ { coded with M := 1481, W := 192 } 400 _ (by decide +kernel)
+  safe_of_checkC _ { coded with M := 1549, W := 192 } 400 _ (by decide +kernel)
 
 end Unifex.Props.C16
